@@ -6,7 +6,7 @@
    positions of the case: the code only compares and hashes positions, so an order isomorphism
    commutes with it; the genomic value is carried separately where `+ 1` matters).
    The component finder is the shared model WH.Model.UnionFind (graph.ComponentFinder). *)
-From Coq Require Import Arith List Bool.
+From Coq Require Import Arith List Bool ZArith.
 From WH.Model Require Import UnionFind UFSpec.
 Import ListNotations.
 
@@ -127,8 +127,8 @@ Definition compute_overall_components (accessible : list nat) (reads : list crea
    `gpos` maps a rank back to the genomic (0-based) position. *)
 Definition lookup (m : list (nat * nat)) (p : nat) : option nat :=
   match List.find (fun e => Nat.eqb (fst e) p) m with Some e => Some (snd e) | None => None end.
-Definition block_id (gpos : list nat) (comps : list (nat * nat)) (p : nat) : option nat :=
-  match lookup comps p with Some c => Some (nth c gpos 0 + 1) | None => None end.
+Definition block_id (gpos : list Z) (comps : list (nat * nat)) (p : nat) : option Z :=
+  match lookup comps p with Some c => Some (nth c gpos 0 + 1)%Z | None => None end.
 
 (* find_largest_component: a sorted list of positions of a largest block *)
 Definition block_members (comps : list (nat * nat)) (b : nat) : list nat :=
@@ -168,6 +168,15 @@ Definition components_ok (P : list nat) (reads : list cread) (mb : option (list 
   let keys := keys_of P in
   let E := spec_edges P reads mb het in
   assoc_eqb d (map (fun p => (p, naive_min keys E p)) keys).
+
+(* the identifier the property demands for position p: 1 + genomic position of the leftmost variant of
+   p's class *)
+Definition spec_block_id (gpos : list Z) (P : list nat) (reads : list cread) (mb : option (list nat))
+    (het : option hetmap) (p : nat) : Z :=
+  (nth (naive_min (keys_of P) (spec_edges P reads mb het) p) gpos 0 + 1)%Z.
+Definition ids_ok (gpos : list Z) (P : list nat) (reads : list cread) (mb : option (list nat))
+    (het : option hetmap) (obs : list (nat * Z)) : bool :=
+  forallb (fun o => pmem (fst o) P && Z.eqb (snd o) (spec_block_id gpos P reads mb het (fst o))) obs.
 
 (* L2: the model's answer *)
 Definition result_eqb (a b : list (nat * nat) + err) : bool :=
